@@ -680,6 +680,9 @@ func (e *Env) JudgeListObjects(who string, rq gen.Request, st *rm.State, got []s
 
 // missingTags discriminates the known shapes in which an engine loses a permitted object.
 func (e *Env) missingTags(st *rm.State, rq gen.Request, o string) string {
+	if d := e.denyTags(rm.ObjType(o), rq.Rel); d != "" {
+		return d
+	}
 	switch {
 	case st.DiffSubtrahendReachesCycle(o, rq.Rel):
 		return " diff_subtrahend_reaches_tuple_cycle"
